@@ -295,6 +295,9 @@ func (s *streamService) Write(stream streamv1.StreamService_WriteServer) error {
 		if writeEntity.GetMetadata() != nil {
 			metadata = writeEntity.GetMetadata()
 			nodeMetadataSent = make(map[string]bool)
+			// The spec locator was built from the previous resource's entity tag
+			// names; it must not route the new resource's writes.
+			specLocator = nil
 		} else if isFirstRequest {
 			s.l.Error().Msg("metadata is required for the first request of gRPC stream")
 			s.sendReply(nil, modelv1.Status_STATUS_METADATA_REQUIRED, writeEntity.GetMessageId(), stream)
